@@ -560,6 +560,27 @@ func init() {
 			})
 			defer verifhook.Set(nil)
 		}
+		// how long this process went without being scheduled during the run (the longest gap a 2 ms heartbeat saw): the
+		// monitor widens its wall-clock bounds by it, so a stalled machine does not look like a late iteration
+		var maxGap atomic.Int64
+		hbStop := make(chan struct{})
+		go func() {
+			last := time.Now()
+			for {
+				select {
+				case <-hbStop:
+					return
+				default:
+				}
+				time.Sleep(2 * time.Millisecond)
+				now := time.Now()
+				if g := int64(now.Sub(last)) - int64(2*time.Millisecond); g > maxGap.Load() {
+					maxGap.Store(g)
+				}
+				last = now
+			}
+		}()
+		defer close(hbStop)
 		t0 := time.Now()
 		if sw != nil {
 			sw.t0 = t0
@@ -714,13 +735,14 @@ func init() {
 			"maxflight=%d shared=%d res=%d/%d/%d truth=%d/%d metrics=%d/%d/%d/%d evals=%d sumrates=%d lastval=%d cadence=%s "+
 			"setups=%d setupFirst=%d tdLast=%d tdOrder=%d failed=%d err=%d leak=%d envBad=%d envAfter=%s stageOrderBad=%d "+
 			"laststart=%d trigdur=%d idchanged=%d cleanupBad=%d cleanupEarly=%d setupHandleInIteration=%d pushed=%s stagestarts=%s progressAfterCancel=%d printAfter=%d "+
-			"durmin=%d durmax=%d metsumus=%d",
+			"durmin=%d durmax=%d metsumus=%d stall=%d",
 			ret.Milliseconds(), startedAtRet, finishedAtRet, inflightAtRet, startedAfter, progressAfter, boolTok(gapless), mx,
 			maxflight.Load(), shared.Load(), sn.SuccessfulIterationDurations.Count, sn.FailedIterationDurations.Count,
 			sn.DroppedIterationCount, truthS.Load(), truthF.Load(), g.succ, g.fail, g.dropped, g.setupSucc+g.setupFail,
 			evals, sum, lastVal, cadence, setupCount.Load(), setupFirst, tdLast, tdOrder, failed, hasErr, leak,
 			envBad.Load(), envAfter, stageSeqBad.Load(), lastStart, trig.Duration.Milliseconds(),
 			idChanged.Load(), cleanupBad, cleanupEarly.Load(), gotSetupHandle.Load(), pushed, stageStarts, progressAfterCancel, printAfter,
-			sn.SuccessfulIterationDurations.Min.Microseconds(), sn.SuccessfulIterationDurations.Max.Microseconds(), iterationSumMicros(m.Registry))
+			sn.SuccessfulIterationDurations.Min.Microseconds(), sn.SuccessfulIterationDurations.Max.Microseconds(), iterationSumMicros(m.Registry),
+			time.Duration(maxGap.Load()).Milliseconds())
 	})
 }
